@@ -7,6 +7,7 @@
 //!   4005 ggsw_external_product  4006 _assign                   x5 = dnum of a, x6 = dnum of res
 //!   4010 cmux  4011 cmux_assign  4012 cmux_assign_neg          m2 = bit (x3 = 0 / 1); 4010 is L1 for dsize <= 2
 //!   4020 cells of a freshly encrypted GGSW
+//!   4023 rows of the GGLWE->GGSW (tensor) key generated through the public API
 //!   4021 ggsw_from_gglwe  4022 ggsw_expand_row                 x4 = dsize of the GGSW, x5 = its dnum, x6 = its noise position
 //!   4030 ggsw_keyswitch 4031 _assign  4032 ggsw_automorphism 4033 _assign   second key (ksk / atk): x7.. = b, size, dsize, dnum, k ; x0 = p
 //! m2 classes: 0 zero, 1 one, 2 minus one, 3 X^k, 4 small dense, 5 -X^k
@@ -17,19 +18,6 @@ mod ks_common;
 use ks_common::*;
 use poulpy_bin_fhe::bdd_arithmetic::Cmux;
 use poulpy_verif_harness::with_be;
-
-fn m2_poly(g: &mut Rng, n: usize, class: u64) -> Vec<i128> {
-    let mut p = vec![0i128; n];
-    match class {
-        0 => {}
-        1 => p[0] = 1,
-        2 => p[0] = -1,
-        3 => p[g.below(n as u64) as usize] = 1,
-        5 => p[g.below(n as u64) as usize] = -1,
-        _ => for c in p.iter_mut() { *c = g.range(-2, 2) as i128; },
-    }
-    p
-}
 
 fn run(r: &Rec) -> Ran {
     let h = Hdr::parse(&r.ps);
@@ -155,90 +143,13 @@ fn run(r: &Rec) -> Ran {
                 let vs = vec![s.clone(), s.clone(), vec![], vec![], m2.clone()];
                 (vs, try_op(|| { let (gg, _gp) = ggsw_new(&m, &h.ggsw(), h.key_k, &sk, &m2, h.seed); (vec![ggsw_dump(&gg, h.dnum)], vec![vec![1]]) }))
             }
-            4021 | 4022 | 4030..=4033 => {
-                // the GGSW that is produced / transformed: radix in_b (source) -> out_b (result), dsize x4, dnum x5, noise position x6
-                let (gd, gn_, gk) = (us(x(4)), us(x(5)), us(x(6)));
-                let m2 = input_or(r, 4, || m2_poly(&mut g, n, mclass));
-                let lt = GGLWEToGGSWKeyLayout { n: Degree(n as u32), base2k: Base2K(h.key_b as u32), k: TorusPrecision((h.key_size * h.key_b) as u32),
-                                                rank: Rank(rank as u32), dnum: Dnum(h.dnum as u32), dsize: Dsize(h.dsize as u32) };
-                let lsrc = GGSWLayout { n: Degree(n as u32), base2k: Base2K(h.in_b as u32), k: TorusPrecision((h.in_size * h.in_b) as u32), rank: Rank(rank as u32), dnum: Dnum(gn_ as u32), dsize: Dsize(gd as u32) };
-                let lres = GGSWLayout { n: Degree(n as u32), base2k: Base2K(h.out_b as u32), k: TorusPrecision((h.out_size * h.out_b) as u32), rank: Rank(rank as u32), dnum: Dnum(gn_ as u32), dsize: Dsize(gd as u32) };
-                let code = r.code;
-                // the secret under which the source is encrypted: a second secret for the GGSW key-switch
-                let sk_src = if code == 4030 || code == 4031 { sk_new(n, rank, h.seed ^ 3, kind) } else { sk_new(n, rank, h.seed ^ 1, kind) };
-                let s_src = sk_coeffs(&m, &sk_src);
-                let (_tk, tkp) = tsk_new(&m, &lt, h.key_k, &sk, h.seed);
-                let noise_src = NoiseInfos::new(gk, DEFAULT_SIGMA_XE, 6.0 * DEFAULT_SIGMA_XE).unwrap();
-                // second key
-                let mut h2 = h; h2.key_b = us(x(7)); h2.key_size = us(x(8)); h2.dsize = us(x(9)); h2.dnum = us(x(10)); h2.key_k = us(x(11)); h2.key_rin = rank; h2.key_rout = rank;
-                let p = x(0) as i64;
-                let vs = vec![s_src.clone(), s.clone(), vec![], vec![], m2.clone()];
-                (vs, try_op(|| {
-                    let (mut o, same) = twice(|fill| {
-                        match code {
-                            4021 => {
-                                // GGLWE with one input column whose rows encrypt m2 * 2^-((row+1) dsize b)
-                                let lg = GGLWELayout { n: Degree(n as u32), base2k: Base2K(h.in_b as u32), k: TorusPrecision((h.in_size * h.in_b) as u32),
-                                                       rank_in: Rank(1), rank_out: Rank(rank as u32), dnum: Dnum(gn_ as u32), dsize: Dsize(gd as u32) };
-                                let mut a = GGLWE::alloc_from_infos(&lg);
-                                let pt = mk_scalar_znx(n, 1, &v64(&m2));
-                                let skp = sk_prep(&m, &sk);
-                                let mut sc0 = setup(m.gglwe_encrypt_sk_tmp_bytes(&lg));
-                                m.gglwe_encrypt_sk(&mut a, &pt, &skp, &noise_src, &mut src(h.seed ^ 0x81), &mut src(h.seed ^ 0x82), sc0.borrow());
-                                let mut res = GGSW::alloc_from_infos(&lres);
-                                let mut sc = scratch(m.ggsw_from_gglwe_tmp_bytes(&lres, &lt), fill);
-                                m.ggsw_from_gglwe(&mut res, &a, &tkp, sc.borrow());
-                                vec![ggsw_dump(&res, gn_)]
-                            }
-                            4022 => {
-                                let (mut gg, _gp) = ggsw_new(&m, &lres, gk, &sk, &m2, h.seed ^ 0x99);
-                                for row in 0..gn_ { for c in 1..=rank { gg.at_mut(row, c).data_mut().data.iter_mut().for_each(|b| *b = 0x5a); } }
-                                let mut sc = scratch(m.ggsw_expand_rows_tmp_bytes(&lres, &lt), fill);
-                                m.ggsw_expand_row(&mut gg, &tkp, sc.borrow());
-                                vec![ggsw_dump(&gg, gn_)]
-                            }
-                            4030 | 4031 => {
-                                let (a, _ap) = ggsw_new(&m, &lsrc, gk, &sk_src, &m2, h.seed ^ 0x99);
-                                let (_k, kp) = ksk_new(&m, &h2, &sk_src, &sk, h.seed ^ 0x77);
-                                if code == 4030 {
-                                    let mut res = GGSW::alloc_from_infos(&lres);
-                                    let mut sc = scratch(m.ggsw_keyswitch_tmp_bytes(&lres, &lsrc, &kp, &lt), fill);
-                                    m.ggsw_keyswitch(&mut res, &a, &kp, &tkp, sc.borrow());
-                                    vec![ggsw_dump(&res, gn_)]
-                                } else {
-                                    let mut res = a.clone();
-                                    let mut sc = scratch(m.ggsw_keyswitch_tmp_bytes(&lsrc, &lsrc, &kp, &lt), fill);
-                                    m.ggsw_keyswitch_assign(&mut res, &kp, &tkp, sc.borrow());
-                                    vec![ggsw_dump(&res, gn_)]
-                                }
-                            }
-                            _ => {
-                                let (a, _ap) = ggsw_new(&m, &lsrc, gk, &sk, &m2, h.seed ^ 0x99);
-                                let (_k, kp) = atk_new(&m, &h2, &sk, p, h.seed ^ 0x77);
-                                if code == 4032 {
-                                    let mut res = GGSW::alloc_from_infos(&lres);
-                                    let mut sc = scratch(m.ggsw_automorphism_tmp_bytes(&lres, &lsrc, &kp, &lt), fill);
-                                    m.ggsw_automorphism(&mut res, &a, &kp, &tkp, sc.borrow());
-                                    vec![ggsw_dump(&res, gn_)]
-                                } else {
-                                    let mut res = a.clone();
-                                    let mut sc = scratch(m.ggsw_automorphism_tmp_bytes(&lsrc, &lsrc, &kp, &lt), fill);
-                                    m.ggsw_automorphism_assign(&mut res, &kp, &tkp, sc.borrow());
-                                    vec![ggsw_dump(&res, gn_)]
-                                }
-                            }
-                        }
-                    });
-                    o.push(vec![same]);
-                    (o, vec![vec![1]])
-                }))
-            }
+            4021 | 4022 | 4023 | 4030..=4033 => return run_ggsw_family(r, r.code),
             _ => panic!("c04: unknown op {}", r.code),
         }
     })
 }
 
-fn has_flags(c: i64) -> bool { c != 4020 }
+fn has_flags(c: i64) -> bool { c != 4020 && c != 4023 }
 pub fn exec(r: &Rec) -> Ran { exec_xbe(r, run, has_flags) }
 
 pub fn generate(tier: &str, seed: u64) -> Vec<Rec> {
@@ -299,6 +210,8 @@ pub fn generate(tier: &str, seed: u64) -> Vec<Rec> {
         let mut h = base(&mut rng, it, 2);
         h.in_size = h.in_size.max(3); h.out_b = h.in_b; h.out_size = h.in_size;
         let code = [4021i64, 4022, 4030, 4031, 4032, 4033][(it % 6) as usize];
+        // rank 3 is where the packed index of the secret tensor first differs from its transpose: every second round of the family
+        if (it / 6) % 2 == 0 { h.in_rank = 3; h.out_rank = 3; h.key_rin = 3; h.key_rout = 3; }
         let fft = h.be <= 2;
         // shape of the GGSW itself
         let gd = rng.range(1, 2) as usize;
@@ -318,6 +231,7 @@ pub fn generate(tier: &str, seed: u64) -> Vec<Rec> {
         let p = 2 * rng.below(h.n as u64) as i128 + 1;
         out.push(mk(code, &h, vec![p, rng.below(3) as i128, 0, rng.below(6) as i128, gd as i128, gn_ as i128, gk as i128,
                                    b2 as i128, s2 as i128, d2 as i128, n2 as i128, (s2 * b2) as i128]));
+        if it % 6 == 0 { out.push(mk(4023, &h, vec![0, rng.below(3) as i128])); }
     }
     out
 }
